@@ -63,7 +63,12 @@ DevEnabled(d, n, o, k, ca) ==
     [] d = "Dev_EmptyQuotesNotContinued" -> ca = "after" /\ k = 0 /\ o # "none"
     \* inside a quote the user opened, a `|` or `;` among the typed characters with more typed text after
     \* it still splits the line for the analyser: only the part after it is taken for the word to complete
-    [] d = "Dev_OpenQuoteSeparatorCutsWord" -> o # "none" /\ \E i \in 1..Len(n) : i < k /\ n[i] \in {"pipe", "semi"}
+    \* (the same for `&&` followed by more typed text, and for the substitution opener `@(` wherever it is typed)
+    [] d = "Dev_OpenQuoteSeparatorCutsWord" -> /\ o # "none"
+                                               /\ \E i \in 1..Len(n) :
+                                                    \/ i < k /\ n[i] \in {"pipe", "semi"}
+                                                    \/ (IF i + 1 <= Len(n) THEN n[i] = "amp" /\ n[i + 1] = "amp" /\ i + 1 < k ELSE FALSE)
+                                                    \/ (IF i + 1 <= Len(n) THEN n[i] = "at" /\ n[i + 1] = "lp" /\ i + 1 <= k ELSE FALSE)
     [] OTHER -> FALSE
 
 \* the analyser: for any text and cursor a context (or none) whose prefix and suffix reproduce the text
